@@ -143,6 +143,21 @@ def check_state(rec, B, tg, tp):
         zg[k, 2 * k + 1] = 1
     zero_key = O.canon_group(zg, np.zeros(N, dtype=np.int64))
     nt = bool(tp[:N].any()) or not np.array_equal(tg[:N], zg)
+    # the returned circuit is an ordinary circuit: a copy taken before it was ever used, and a compiled copy, diagonalize as well
+    if hasattr(circ, "copy"):
+        for how in ("copy", "copy.compiled"):
+            ok, twin = rec.attempt("diag.state.copy", case, lambda: circ.copy())
+            if ok and how == "copy.compiled":
+                ok, _ = rec.attempt("diag.state.copy", case, lambda: twin.compile(N))
+            if ok:
+                F2 = B.State(tg.copy(), tp.copy(), 0)
+                ok, _ = rec.attempt("diag.state.copy", case, lambda: twin.forward(F2))
+                if ok:
+                    fg, fp, fr = B.state(F2)
+                    Z2 = twin.backward(B.stabilizer.zero_state(N))
+                    bg, bp, br = B.state(Z2)
+                    rec.check("diag.state.copy", fr == 0 and O.state_key(fg, fp, fr) == (0,) + zero_key and O.state_key(bg, bp, br) == O.state_key(tg, tp, 0),
+                              dict(case, how=how), nt, expected="|0...0> forward, the state backward", observed=_show(fg[:N], fp[:N]))
     F = B.State(tg.copy(), tp.copy(), 0)
     ok, _ = rec.attempt("diag.state.fwd", case, lambda: circ.forward(F))
     if ok:
